@@ -834,6 +834,31 @@ def r18e(P, R):
                 "%s de-duplicates diagnostics (%s): diagnostics that compare equal under the list's own equality%s "
                 "collapse into one, so an offending file may be named by no diagnostic" % (
                     f.path, ", ".join(dd), " (the comparison of positions never reads the file index)" if blind else ""), loc=f.loc())
+    # a diagnostic that is recorded is also handed on: a local list of errors that receives diagnostics (push/extend) must be read
+    # after that - returned, tested, converted.  A list that is filled last and then dropped loses those diagnostics (and the run
+    # succeeds although a check failed).
+    stage = sorted({g.path: g for g in [ci0, ro0, P.fn(CLI + "check::resolve_schema")] + scope_fns(P, ci0, depth=2) if g.path.startswith(CLI)}.values(), key=lambda g: g.path)
+    for f in stage:
+        acc = f.nodes()
+        lists = {x["local"]: x.get("name") for x, _ in acc if x.get("k") == "Binding" and "Error" in norm(x.get("t") or "") and "Vec<" in norm(x.get("t") or "")}
+        for lid, nm in sorted(lists.items()):
+            fills = [i for i, (x, _) in enumerate(acc) if x.get("k") == "MethodCall" and x["method"] in ("push", "extend", "append", "extend_from_slice", "insert")
+                     and x["recv"].get("k") == "Path" and x["recv"].get("local") == lid]
+            if not fills:
+                continue
+            last = fills[-1]
+            inside = {id(y) for y in subnodes(acc[last][0])}
+            later = [j for j, (x, _) in enumerate(acc) if j > last and id(x) not in inside and x.get("k") == "Path" and x.get("local") == lid]
+            # a fill inside a loop is also followed by whatever reads the list earlier in the same loop body
+            loops = [c[1] for c in enclosing_contexts(f, last) if c[0] == "loop"]
+            in_loop = [y for lp in loops for y in subnodes(lp) if y.get("k") == "Path" and y.get("local") == lid and id(y) not in inside
+                       and not any(y is acc[k][0]["recv"] for k in fills)]
+            key = "recorded-then-read:%s:%s" % (f.name, nm)
+            if later or in_loop:
+                R.holds("R18-e", key, "`%s` is read after the last diagnostics were added to it" % nm, loc=f.loc())
+            else:
+                R.violated("R18-e", key, "%s adds diagnostics to `%s` and never reads it afterwards: they are neither returned nor reported, so the run succeeds "
+                           "although a check (e.g. a plugin's schema check) failed" % (f.path, nm), loc=f.loc())
     # CliOutput::extend appends every diagnostic it is given
     ext = [f for f in P.trait_impls("core::iter::traits::collect::Extend", "extend") if (f.self_adt or "").endswith("CliOutput")]
     for f0 in ext:
